@@ -563,6 +563,7 @@ def one_scenario(pid, sc, res, dr, stats, C, dist, seen_nontrivial, phases, add_
                 return
             if tr.step_error:
                 dist["step_error:" + tr.step_error[1]] = dist.get("step_error:" + tr.step_error[1], 0) + 1
+            C.declared_events = sc["events"]
             for st in tr.steps:
                 res["steps"] += 1
                 try:
